@@ -630,6 +630,10 @@ class Interp:
                     o.clear()
                     return None
                 raise OutOfFragment('map operation %s at %s' % (last, fn.loc(n)))
+        if k == 'CXXOperatorCallExpr' and n.get('op') == '=' and cs.startswith(('std::optional::', 'std::variant::')) and len(n.get('args', [])) == 2:
+            v = self.eval(fn, S[n['args'][1]], env)       # optionals and variants are modelled by their content
+            self.assign(fn, S[n['args'][0]], v, env)
+            return v
         if cs.startswith('ccl::meta::PropagateConst::'):
             # smart-pointer wrapper: modelled as the pointee
             if k in ('CXXConstructExpr', 'CXXTemporaryObjectExpr'):
